@@ -6,6 +6,7 @@ import (
 	"fmt"
 	"os"
 	"path/filepath"
+	"runtime"
 	"sort"
 	"strconv"
 	"strings"
@@ -187,9 +188,14 @@ func solveAll(units []*unit, timeoutS int, all bool, dumpDir string) []*oblRun {
 		}
 	}
 	var wg sync.WaitGroup
-	par := 8
+	ncpu := runtime.NumCPU()
+	par := max(2, ncpu/2)
 	if len(solverHints) > 0 {
-		par = 14 // mostly one solver process per obligation
+		par = max(2, ncpu-2) // mostly one solver process per obligation
+		// longest (by calibration time) first: shortens the makespan and keeps slow queries off the loaded tail
+		sort.SliceStable(runs, func(i, j int) bool {
+			return solverHints[runs[i].o.Name].seconds > solverHints[runs[j].o.Name].seconds
+		})
 	}
 	sem := make(chan struct{}, par)
 	for _, r := range runs {
@@ -327,7 +333,7 @@ func cmdCheck(args []string) {
 		fatal(2, "unknown property %s", *prop)
 	}
 	id := *prop
-	timeoutS := 20
+	timeoutS := 30
 	allSolvers := false
 	if *tier == "thorough" {
 		timeoutS = 120
@@ -340,10 +346,14 @@ func cmdCheck(args []string) {
 	if !*writeBaseline {
 		loadHints(filepath.Join(verifRoot, "baseline", id+".hints"))
 	}
+	tLoad := time.Since(start).Seconds()
 	units, problems := generateUnits(P, id, "")
+	tGen := time.Since(start).Seconds() - tLoad
 	extraRuns, extraNotes := runExtraEngines(P, id, pc)
 	runs := solveAll(units, timeoutS, allSolvers, "")
 	runs = append(runs, extraRuns...)
+	tSolve := time.Since(start).Seconds() - tLoad - tGen
+	fmt.Printf("%s timing: load %.1fs, generate %.1fs, solve %.1fs (%d obligations, %d cpus)\n", id, tLoad, tGen, tSolve, len(runs), runtime.NumCPU())
 
 	baselinePath := filepath.Join(verifRoot, "baseline", id+".obligations")
 	baseline := map[string]bool{}
@@ -363,16 +373,26 @@ func cmdCheck(args []string) {
 	}
 
 	// retry undischarged obligations with a longer timeout
+	var rwg sync.WaitGroup
+	rsem := make(chan struct{}, max(1, runtime.NumCPU()/4))
 	for _, r := range runs {
 		if r.res.Status == "timeout" || r.res.Status == "unknown" {
 			if r.u != nil && r.u.res != nil && r.u.res.Ctx != nil && (baseline[r.o.Name] || !haveBaseline) && !r.o.ExpectSat {
-				r2 := Solve(r.u.res.Ctx, r.o, timeoutS*6, true, "")
-				r2.Seconds += r.res.Seconds
-				r.res = r2
+				rwg.Add(1)
+				go func(r *oblRun) {
+					defer rwg.Done()
+					rsem <- struct{}{}
+					defer func() { <-rsem }()
+					r2 := Solve(r.u.res.Ctx, r.o, timeoutS*6, true, "")
+					r2.Seconds += r.res.Seconds
+					r.res = r2
+				}(r)
 			}
 		}
 	}
+	rwg.Wait()
 
+	var engineErrs []string
 	var discharged, total, vacOK, vacInconclusive int
 	bySolver := map[string]int{}
 	var solverTime float64
@@ -397,6 +417,11 @@ func cmdCheck(args []string) {
 			default:
 				vacInconclusive++
 			}
+			continue
+		}
+		if r.res.Status == "error" {
+			// a malformed query or a solver disagreement is a defect of the machinery, never a verdict
+			engineErrs = append(engineErrs, fmt.Sprintf("%s: %s", r.o.Name, firstLines(r.res.Raw, 3)))
 			continue
 		}
 		total++
@@ -581,6 +606,12 @@ func cmdCheck(args []string) {
 	}
 	if violations > 0 {
 		os.Exit(1)
+	}
+	if len(engineErrs) > 0 {
+		for _, e := range engineErrs {
+			fmt.Println("ENGINE-ERROR:", e)
+		}
+		os.Exit(2)
 	}
 	if !haveBaseline && !*writeBaseline {
 		fmt.Println("note: no baseline file; every generated obligation was required to discharge")
